@@ -42,7 +42,8 @@ for _c in tr.CLASSES:
     OBLIGATIONS["class:" + _c] = 30
 OBLIGATIONS.update({"branch:power-lam": 50, "branch:yj-lam": 50,
                     "branch:manly-lam0": 10, "monotone-pairs": 1000,
-                    "adjacent-floats": 50, "jacobian-before-forward": 100})
+                    "adjacent-floats": 50, "jacobian-before-forward": 100,
+                    "clipped-request": 100})
 
 
 def call(fn, *a):
@@ -67,11 +68,63 @@ def stencil(t, x, h):
     return D, mag
 
 
+REQUESTS = [-1e30, -2.0, -1e-12, 0.0, 1e30]
+XPROBE = np.array([-47.0, -3.3, -0.7, -0.013, 0.013, 0.7, 1.0, 3.3, 47.0])
+
+
+def run_clipped_requests(ctx, case):
+    """The bounds a class enforces are what keeps every branch increasing: whatever
+    value is requested for a parameter (through get_transform, item or attribute
+    assignment), the value the object ends up holding must still give a strictly
+    positive Jacobian wherever the Jacobian is defined."""
+    from hydrodiy.stat import transform
+    name = case["class"]
+    ctor = case["ctor"]
+    try:
+        t0 = transform.get_transform(name, **ctor)
+    except Exception:
+        return
+    pnames = [str(n) for n in t0.params.names]
+    for pn in pnames:
+        for req in REQUESTS:
+            for how in ("kwarg", "item", "attr"):
+                try:
+                    with warnings.catch_warnings():
+                        warnings.simplefilter("ignore")
+                        if how == "kwarg":
+                            t = transform.get_transform(name, **dict(ctor, **{pn: req}))
+                        else:
+                            t = transform.get_transform(name, **ctor)
+                            if how == "item":
+                                t[pn] = req
+                            else:
+                                setattr(t, pn, req)
+                        held = float(t[pn])
+                        x = XPROBE / 10.0 + 0.5 if name == "Logit" else XPROBE
+                        J = np.asarray(call(t.jacobian, x.copy()), dtype=float)
+                        y = np.asarray(call(t.forward, x.copy()), dtype=float)
+                except Exception:
+                    ctx.extra["clipped-request:refused"] += 1
+                    continue
+                ctx.api(f"{name}.jacobian")
+                ctx.tag("clipped-request")
+                fin = np.isfinite(J) & np.isfinite(y)
+                bad = np.where(fin & ~(J > 0))[0]
+                ctx.evaluated(int(fin.sum()))
+                ctx.check("jacobian.positive-after-out-of-range-request", len(bad) == 0,
+                          f"{name}|out-of-range-request|jacobian-not-positive", case,
+                          lambda: {"parameter": pn, "requested": req, "held": held,
+                                   "via": how, "x": float(x[bad[0]]),
+                                   "jacobian": float(J[bad[0]])})
+
+
 def run_config(ctx, case):
     name = case["class"]
     ctor, par = case["ctor"], case["params"]
     rng = np.random.default_rng(int(case["seed"]))
     ctx.evaluated()
+    if int(case["seed"]) % 8 == 0 and name != "Softmax":
+        run_clipped_requests(ctx, case)
     try:
         t, actual = tr.make(name, ctor, par)
     except Exception as e:
